@@ -1,6 +1,9 @@
 package postgres
 
 import (
+	"fmt"
+	"strings"
+
 	"ariga.io/atlas/sql/schema"
 )
 
@@ -80,6 +83,7 @@ func VerifHarness_C15_postgres() {
 	if err != nil {
 		return
 	}
+	verifAssert(verifSem(t1) == verifSem(t), "the parsed type means the same as the original (family, storage class, size, precision, scale)")
 	_, ud := t1.(*UserDefinedType)
 	verifAssert(!ud, "a formatted built-in type does not parse to a user-defined type")
 	s1, err := FormatType(t1)
@@ -90,4 +94,110 @@ func VerifHarness_C15_postgres() {
 	verifAssert(err == nil, "second parse")
 	s2, _ := FormatType(t2)
 	verifAssert(s2 == s1, "format/parse is idempotent")
+}
+
+// verifSem is an independent semantic projection of a PostgreSQL type.
+func verifSem(t schema.Type) string {
+	switch t := t.(type) {
+	case *BitType:
+		n := t.Len
+		if strings.ToLower(t.T) == TypeBit && n == 0 {
+			n = 1 // BIT == BIT(1)
+		}
+		return fmt.Sprintf("%s/%d", strings.ToLower(t.T), n)
+	case *schema.BoolType:
+		return "bool"
+	case *schema.BinaryType:
+		return "bytea"
+	case *CurrencyType:
+		return "money"
+	case *schema.IntegerType:
+		switch strings.ToLower(t.T) {
+		case TypeSmallInt, TypeInt2:
+			return "int/2"
+		case TypeInteger, TypeInt, TypeInt4:
+			return "int/4"
+		case TypeBigInt, TypeInt8:
+			return "int/8"
+		}
+		return "int/" + strings.ToLower(t.T)
+	case *IntervalType:
+		p := defaultTimePrecision
+		if t.Precision != nil {
+			p = *t.Precision
+		}
+		return fmt.Sprintf("interval/%s/%d", strings.ToUpper(t.F), p)
+	case *schema.StringType:
+		switch strings.ToLower(t.T) {
+		case TypeChar, TypeCharacter:
+			n := t.Size
+			if n == 0 {
+				n = 1
+			}
+			return fmt.Sprintf("char/%d", n)
+		case TypeVarChar, TypeCharVar:
+			return fmt.Sprintf("varchar/%d", t.Size)
+		}
+		return "string/" + strings.ToLower(t.T)
+	case *schema.TimeType:
+		name := strings.ToLower(t.T)
+		switch name {
+		case TypeTimeWOTZ:
+			name = TypeTime
+		case TypeTimeWTZ:
+			name = TypeTimeTZ
+		case TypeTimestampWOTZ:
+			name = TypeTimestamp
+		case TypeTimestampWTZ:
+			name = TypeTimestampTZ
+		}
+		p := defaultTimePrecision
+		if t.Precision != nil && name != TypeDate {
+			p = *t.Precision
+		}
+		return fmt.Sprintf("%s/%d", name, p)
+	case *schema.FloatType:
+		switch strings.ToLower(t.T) {
+		case TypeReal, TypeFloat4:
+			return "float/4"
+		case TypeDouble, TypeFloat8:
+			return "float/8"
+		}
+		if t.Precision > 0 && t.Precision <= 24 {
+			return "float/4"
+		}
+		return "float/8"
+	case *schema.DecimalType:
+		return fmt.Sprintf("numeric/%d/%d", t.Precision, t.Scale)
+	case *SerialType:
+		switch strings.ToLower(t.T) {
+		case TypeSmallSerial, TypeSerial2:
+			return "serial/2"
+		case TypeSerial, TypeSerial4:
+			return "serial/4"
+		}
+		return "serial/8"
+	case *schema.JSONType:
+		return strings.ToLower(t.T)
+	case *schema.UUIDType:
+		return "uuid"
+	case *schema.SpatialType:
+		return "spatial/" + strings.ToLower(t.T)
+	case *NetworkType:
+		return "net/" + strings.ToLower(t.T)
+	case *RangeType:
+		return "range/" + strings.ToLower(t.T)
+	case *OIDType:
+		return "oid/" + strings.ToLower(t.T)
+	case *TextSearchType:
+		return "ts/" + strings.ToLower(t.T)
+	case *XMLType:
+		return "xml"
+	case *ArrayType:
+		if t.Type == nil {
+			return "array/?"
+		}
+		return "array/" + verifSem(t.Type)
+	}
+	return "other"
 }
